@@ -840,3 +840,128 @@ Definition farm_env_of (m : gmeta) (others : list Z) (obs : list fobs) : farm_en
 Definition meta_eqb (a b : gmeta) : bool :=
   (m_pool a =? m_pool b) && Bool.eqb (m_master a) (m_master b) &&
   (zlen (m_child a) =? zlen (m_child b)) && forallb (fun pq => fst pq =? snd pq) (combine (m_child a) (m_child b)).
+
+(* ==================================================================================================== *)
+(* The swap-fee branch with the DENOMS of the deposited / distributed coins (additive extension).        *)
+(* x/rewards/keeper/gauge.go InitateGaugesForDuration 257-297 when the liquidity parameter                *)
+(* SwapFeeDistrDenom changes between epochs: TransferFundsForSwapFeeDistribution hands over a coin of     *)
+(* the CURRENT parameter's denom; the gauge's DepositAmount / DistributedAmount are sdk.Coins:            *)
+(*   272  DepositAmount = DepositAmount.Sub(coinsDistributed)        (always, in the deposit's denom)     *)
+(*   275  DistributedAmount.Denom == coinsDistributed.Denom ? add the amount : REPLACE the coin           *)
+(*   291  DepositAmount.Denom == receivedAmount.Denom ? add : REPLACE (what was left of the old denom is  *)
+(*        dropped from the books and stays in the module account)                                         *)
+(* g_denom of the wrapped record is DepositAmount.Denom, dg_ddenom is DistributedAmount.Denom.            *)
+(* ==================================================================================================== *)
+Record dgauge := mkDG { dg_g : gauge; dg_ddenom : Z }.
+
+(* 272-279: the distribution is booked *)
+Definition dg_booked (dg : dgauge) (tot : Z) : dgauge :=
+  let g := dg_g dg in
+  mkDG (mkGauge (g_deposit g - tot) (if dg_ddenom dg =? g_denom g then g_distributed g + tot else tot) (g_triggered g)
+                (g_total g) (g_active g) (g_start g) (g_dur g) (g_swap g) (g_denom g)) (g_denom g).
+(* 291-296: the fees of this epoch are taken in *)
+Definition dg_received (dg : dgauge) (rd r : Z) : dgauge :=
+  let g := dg_g dg in
+  mkDG (mkGauge (if g_denom g =? rd then g_deposit g + r else r) (g_distributed g) (g_triggered g + 1)
+                (g_total g) (g_active g) (g_start g) (g_dur g) (g_swap g) rd) (dg_ddenom dg).
+
+(* [recv]: (denom, amount) of the coin TransferFundsForSwapFeeDistribution returns (credited to the module
+   account by that call).  Nothing is booked when the deposit is not positive (265) *)
+Definition trigger_swap_d (calc : Z -> outcome pays) (recv : outcome (Z * Z)) (b : bank) (dg : dgauge)
+  : outcome (dgauge * bank * dpays) :=
+  let g := dg_g dg in
+  let dd := g_denom g in
+  let dist :=
+    if 0 <? g_deposit g then
+      match distribute calc (g_deposit g) (b dd) with
+      | Panic => Panic | Err c => Err c
+      | Ok None => Ok None
+      | Ok (Some (tot, bal', paid)) => Ok (Some (dg_booked dg tot, bset b dd bal', tag dd paid))
+      end
+    else Ok (Some (dg, b, [])) in
+  match dist with
+  | Panic => Panic | Err c => Err c
+  | Ok None => Ok (dg, b, [])
+  | Ok (Some (dg1, b1, paid)) =>
+      match recv with
+      | Panic => Panic
+      | Err _ => Ok (dg1, b1, paid)
+      | Ok (rd, r) => Ok (dg_received dg1 rd r, bset b1 rd (b1 rd + r), paid)
+      end
+  end.
+
+(* one pass of the loop body: an ordinary gauge keeps its denoms *)
+Definition trigger_d (now : Z) (calc : Z -> outcome pays) (recv : outcome (Z * Z)) (b : bank) (dg : dgauge)
+  : outcome (dgauge * bank * dpays) :=
+  if g_swap (dg_g dg) then trigger_swap_d calc recv b dg
+  else match trigger now calc (b (g_denom (dg_g dg))) (dg_g dg) with
+       | Ok (g', bal', paid) => Ok (mkDG g' (dg_ddenom dg), bset b (g_denom (dg_g dg)) bal', tag (g_denom (dg_g dg)) paid)
+       | Err c => Err c | Panic => Panic
+       end.
+
+Definition hd_recvd (l : list (outcome (Z * Z))) : outcome (Z * Z) := match l with e :: _ => e | [] => Err 1 end.
+
+Fixpoint run_gauges_d (now dur : Z) (gs : list dgauge) (fe : list farm_env) (rv : list (outcome (Z * Z))) (b : bank)
+  : outcome (list dgauge * bank * dpays) :=
+  match gs with
+  | [] => Ok ([], b, [])
+  | g :: rest =>
+      if g_dur (dg_g g) =? dur then
+        match trigger_d now (farm_calc (hd_farm fe)) (hd_recvd rv) b g with
+        | Panic => Panic | Err c => Err c
+        | Ok (g', b1, paid) =>
+            match run_gauges_d now dur rest (tl fe) (tl rv) b1 with
+            | Ok (gs', b', ps) => Ok (g' :: gs', b', paid ++ ps)
+            | Err c => Err c | Panic => Panic
+            end
+        end
+      else match run_gauges_d now dur rest (tl fe) (tl rv) b with
+           | Ok (gs', b', ps) => Ok (g :: gs', b', ps)
+           | Err c => Err c | Panic => Panic
+           end
+  end.
+
+Record dstate := mkD { d_bal : bank; d_gauges : list dgauge }.
+Inductive dop :=
+| DCreate (denom dep total start now dur funds : Z) (meta_ok : bool)      (* MsgCreateGauge, as [Create] *)
+| DCreateSwap (denom now dur : Z)                                          (* CreatePool: denom = SwapFeeDistrDenom then *)
+| DTrigger (now dur : Z) (fe : list farm_env) (rv : list (outcome (Z * Z)))  (* InitateGaugesForDuration *)
+| DDonate (denom amt : Z).
+
+Definition dstep (s : dstate) (o : dop) : outcome (dstate * dpays) :=
+  match o with
+  | DCreate d dep total start now dur funds meta_ok =>
+      if (dur <=? 0) || (dep <=? 0) || (dep <? total) || (dur <? MIN_EPOCH_DUR) || (start <? now) || negb meta_ok
+         || (funds <? dep) then Err 1
+      else Ok (mkD (bset (d_bal s) d (d_bal s d + dep)) (d_gauges s ++ [mkDG (mkGauge dep 0 0 total true start dur false d) d]), [])
+  | DCreateSwap d now dur => Ok (mkD (d_bal s) (d_gauges s ++ [mkDG (mkGauge 0 0 0 1 true now dur true d) d]), [])
+  | DTrigger now dur fe rv =>
+      match run_gauges_d now dur (d_gauges s) fe rv (d_bal s) with
+      | Ok (gs, b, ps) => Ok (mkD b gs, ps)
+      | Err c => Err c | Panic => Panic
+      end
+  | DDonate d a => if a <? 0 then Err 1 else Ok (mkD (bset (d_bal s) d (d_bal s d + a)) (d_gauges s), [])
+  end.
+Definition dapply (s : dstate) (o : dop) : dstate := match dstep s o with Ok (s', _) => s' | _ => s end.
+Definition drun (s : dstate) (ops : list dop) : dstate := fold_left dapply ops s.
+Definition dinit : dstate := mkD (fun _ => 0) [].
+
+(* a coin handed over by the fee transfer is not negative *)
+Definition recvd_wf (r : outcome (Z * Z)) : bool := match r with Ok (_, v) => 0 <=? v | _ => true end.
+Definition dop_wf (o : dop) : bool := match o with DTrigger _ _ _ rv => forallb recvd_wf rv | _ => true end.
+
+(* one gauge over one InitateGaugesForDuration, with the denoms: what was booked is read off the distributed
+   coin (a REPLACED coin is what was booked), it is at most the deposit the gauge started with, and what is
+   left of the deposit is the old deposit minus what was booked - in the old denom - or, after a denom change,
+   exactly what was received *)
+Definition dg_booked_amt (dg dg' : dgauge) : Z :=
+  if dg_ddenom dg' =? dg_ddenom dg then g_distributed (dg_g dg') - g_distributed (dg_g dg) else g_distributed (dg_g dg').
+Definition holds_C19_trigger_d (dg dg' : dgauge) (recv : Z) : bool :=
+  let g := dg_g dg in let g' := dg_g dg' in
+  if g_swap g then
+    let bk := dg_booked_amt dg dg' in
+    (0 <=? bk) && (bk <=? Z.max 0 (g_deposit g)) && (0 <=? g_deposit g') &&
+    ((g_triggered g' =? g_triggered g) || (g_triggered g' =? g_triggered g + 1)) &&
+    (if g_denom g' =? g_denom g then g_deposit g' =? g_deposit g - bk + recv else g_deposit g' =? recv)
+  else (g_denom g' =? g_denom g) && (dg_ddenom dg' =? dg_ddenom dg) &&
+       holds_C19_trigger g g' (epoch_allocation g).
